@@ -127,10 +127,12 @@ def template_inventory(ctx, cases):
 
 
 def model_check(ctx):
-    cfgs = ["MC_KeyManagerAPI" if ctx.thorough else "MC_KeyManagerAPI_quick"]
+    cfgs = ["MC_KeyManagerAPI", "MC_KeyManagerAPI_reg", "MC_KeyManagerAPI_kms", "MC_KeyManagerAPI_cfg"] if ctx.thorough else ["MC_KeyManagerAPI_quick"]
 
     def one(cfg):
-        return ctx.model_check("MC_KeyManagerAPI", cfg, workers=4 if ctx.thorough else 2, heap="6g", timeout=3000, must_cover=False)
+        # (vlib serializes multi-worker TLC runs machine-wide: only the all-registries configuration gets several workers)
+        w = 1 if cfg[-4:] in ("_reg", "_kms", "_cfg") else (4 if ctx.thorough else 2)
+        return ctx.model_check("MC_KeyManagerAPI", cfg, workers=w, heap="6g", timeout=3000, must_cover=False)
 
     def fault(cfg, inv):
         r = ctx.tlc("MC_KeyManagerAPI", cfg, workers=1, timeout=600)
@@ -138,8 +140,8 @@ def model_check(ctx):
             raise vlib.Infra("fault configuration %s must violate %s (got %s)" % (cfg, inv, r.summary()))
         ctx.stage("M:" + cfg, violated=inv, trace_len=r.trace_len)
 
-    with cf.ThreadPoolExecutor(max_workers=3) as ex:
-        futs = [ex.submit(one, cfgs[0]), ex.submit(fault, "MC_KeyManagerAPI_fault_register", "LookupSupports"),
+    with cf.ThreadPoolExecutor(max_workers=6) as ex:
+        futs = [ex.submit(one, c) for c in cfgs] + [ex.submit(fault, "MC_KeyManagerAPI_fault_register", "LookupSupports"),
                 ex.submit(fault, "MC_KeyManagerAPI_fault_kms", "KmsFirstSupporting")]
         for f in futs:
             f.result()
